@@ -659,6 +659,11 @@ int gd_uninclude(DIRFILE* D, int fragment_index, int del)
     GD_SET_RETURN_ERROR(D, GD_E_PROTECTED, GD_E_PROTECTED_FORMAT, NULL, 0,
         D->fragment[parent].cname);
 
+  /* deleting the fragment's file changes a fragment that may be protected */
+  if (del && (D->fragment[fragment_index].protection & GD_PROTECT_FORMAT))
+    GD_SET_RETURN_ERROR(D, GD_E_PROTECTED, GD_E_PROTECTED_FORMAT, NULL, 0,
+        D->fragment[fragment_index].cname);
+
   /* find all affected fragments */
   nf = _GD_SubFragmentList(D, fragment_index, &f);
 
